@@ -27,7 +27,8 @@ class World:
                 4: optyx.exp(x - 2) + (y - p) ** 2 - x,
                 5: x + 2 * y + z,
             }
-            self.cons = {11: x + y >= 1, 12: x * x + y * y >= 1 + p}
+            self.u = optyx.Variable('u', lb=-1, ub=6)        # occurs only in constraint 13
+            self.cons = {11: x + y >= 1, 12: x * x + y * y >= 1 + p, 13: x + self.u >= 2.5}
             self.bvars = [self.x, self.y]
         else:
             self.v = optyx.VectorVariable('v', 2, lb=0, ub=BOUNDS[0][0])
@@ -41,7 +42,8 @@ class World:
                 4: optyx.exp(v[0] - 2) + (v[1] - p) ** 2 - v[0],
                 5: v.sum() + v[1] + z,
             }
-            self.cons = {11: v.sum() >= 1, 12: v.dot(v) >= 1 + p}
+            self.u = optyx.Variable('a', lb=-1, ub=6)        # occurs only in constraint 13; sorts before v
+            self.cons = {11: v.sum() >= 1, 12: v.dot(v) >= 1 + p, 13: v[0] + self.u >= 2.5}
             self.bvars = [self.v[0], self.v[1]]
         self.bver = 0
         self.pver = 0
@@ -108,9 +110,22 @@ class Replay:
             if b != f.get_bounds():
                 return 'get_bounds() differs from a fresh problem: %s vs %s' % (b, f.get_bounds())
         elif k == 'Solve':
-            s = outcome(lambda: self.prob.solve(method=op['m'], strict=op['strict']))
-            t = outcome(lambda: self.fresh().solve(method=op['m'], strict=op['strict']))
+            kw = {}
+            o = op.get('opts')
+            if o:
+                if not o['useHess']:
+                    kw['use_hessian'] = False
+                if o['tol']:
+                    kw['tol'] = 1e-9
+                if o['maxiter']:
+                    kw['maxiter'] = 300
+                if o['x0']:
+                    raise ValueError('x0 option has no concretisation in history replays')
+            s = outcome(lambda: self.prob.solve(method=op['m'], strict=op['strict'], **kw))
+            t = outcome(lambda: self.fresh().solve(method=op['m'], strict=op['strict'], **kw))
             return compare(s, t)
+        else:
+            raise ValueError('history operation %r has no concrete counterpart' % (op,))
         return None
 
 
